@@ -26,4 +26,8 @@ Spec == Init /\ [][Next]_v
 TypeOK      == v \in [Elem -> -1..(N - 1)]
 DenseInv    == Dense(v)
 CompleteInv == Complete => \A e \in Elem : Ranked(v, e)
+\* the two formulations of dense numbering agree on EVERY vector (checked for N <= 5; the second one is the one the
+\* symbolic checker can handle, MC_MarkovApa.tla)
+ASSUME N <= 5 => \A w \in [Elem -> (-1)..(N - 1)] : Dense(w) = DenseAlt(w)
+DenseAltInv == DenseAlt(v)
 =============================================================================
